@@ -4,7 +4,7 @@
 (* ATOMIC = FALSE : the code as it is  - TLC is EXPECTED to find the duplicate-id / remove-vs-add / tracker races    *)
 (*                  (props/c14.py requires the violation and keeps the counterexample as a lead for the driver).     *)
 EXTENDS Session
-CONSTANTS IDS, RANGE, K, ATOMIC, FULL, STORAGE
+CONSTANTS IDS, RANGE, K, ATOMIC, FULL, STORAGE, SPARSE
 
 P0 == [st |-> [meta |-> TRUE], tiers |-> <<>>, cnt |-> 0]
 
@@ -13,7 +13,7 @@ P0 == [st |-> [meta |-> TRUE], tiers |-> <<>>, cnt |-> 0]
 UsedH  == {torrents[i].h : i \in DOMAIN torrents} \cup {o.h : o \in orphans} \cup {pc[c].h : c \in 1 .. K}
 FreshH == CHOOSE n \in 1 .. (2 * K + Cardinality(RANGE) + 2) : n \notin UsedH
 
-MCInit == InitWith([range |-> RANGE, k |-> K, atomic |-> ATOMIC, ret |-> FALSE, env |-> FALSE])
+MCInit == InitWith([range |-> RANGE, k |-> K, atomic |-> ATOMIC, ret |-> FALSE, env |-> FALSE, sparse |-> SPARSE])
 
 Step(c) ==
     \/ \E id \in IDS : BeginAdd(c, id, IF FULL THEN FreshH ELSE 0, [explicit |-> TRUE, fail |-> IF STORAGE THEN "any" ELSE "none", p |-> P0])
